@@ -32,7 +32,7 @@ type round struct {
 	Pkgs     []rc.P `json:"pkgs"`
 	Cuts     []int  `json:"cuts"`
 	Strategy string `json:"strategy"` // next | until | nilcb
-	Plan     []int  `json:"plan"`     // per callback invocation: 0 continue, 1 true, 2 io.EOF, 3 error, 4 error wrapping io.EOF
+	Plan     []int  `json:"plan"`     // per callback invocation: 0 continue, 1 true, 2 io.EOF, 3 error, 4 error wrapping io.EOF, 5 (true, error)
 	Send     bool   `json:"send_before"`
 	// SendAfter > 0: the request completes only after that many response packets have
 	// already arrived (a fast server answers while the last request packet is still being
@@ -219,6 +219,10 @@ func runCase(c c03Case) (f *vh.Failure) {
 							return false, io.EOF
 						case 3:
 							return false, errCB
+						case 5:
+							// "stop" together with an error (the form the library's own documentation
+							// shows: return true, DefinedError) is an abort with an error all the same
+							return true, errCB
 						case 4:
 							// an error that merely wraps io.EOF is not "an unwrapped io.EOF": the rest
 							// of the response has to be consumed like for any other error
@@ -239,7 +243,7 @@ func runCase(c c03Case) (f *vh.Failure) {
 						runtime.Gosched()
 						continue
 					}
-					if (lastAct == 3 || lastAct == 4) && !errors.Is(err, errCB) {
+					if (lastAct == 3 || lastAct == 4 || lastAct == 5) && !errors.Is(err, errCB) {
 						wcancel()
 						return vh.Failf("C03/callback-error-not-returned", "%s: the callback failed (plan action %d) but NextPackageUntil returned %v", where, lastAct, err)
 					}
@@ -400,7 +404,7 @@ func genRound(rt *rapid.T) round {
 	if r.Strategy == "until" {
 		n := rapid.IntRange(0, 8).Draw(rt, "planlen")
 		for i := 0; i < n; i++ {
-			r.Plan = append(r.Plan, rapid.SampledFrom([]int{0, 0, 0, 1, 2, 3, 4}).Draw(rt, "act"))
+			r.Plan = append(r.Plan, rapid.SampledFrom([]int{0, 0, 0, 1, 2, 3, 4, 5}).Draw(rt, "act"))
 		}
 	}
 	return r
@@ -442,7 +446,7 @@ func TestShapePairsExhaustive(t *testing.T) {
 		{{Msg: &rc.Msg{ID: 3}}},
 		{{RetStat: &i32}, done(rc.DoneMore), {Msg: &rc.Msg{ID: 4}}, done(rc.DoneFinal), env},
 	}
-	strategies := []round{{Strategy: "next"}, {Strategy: "until"}, {Strategy: "until", Plan: []int{3}}, {Strategy: "until", Plan: []int{0, 2, 1}}, {Strategy: "until", Plan: []int{4}}, {Strategy: "nilcb"}}
+	strategies := []round{{Strategy: "next"}, {Strategy: "until"}, {Strategy: "until", Plan: []int{3}}, {Strategy: "until", Plan: []int{0, 2, 1}}, {Strategy: "until", Plan: []int{4}}, {Strategy: "until", Plan: []int{0, 5}}, {Strategy: "nilcb"}}
 	for _, a := range shapes {
 		for _, b := range shapes {
 			for _, c3 := range shapes {
